@@ -16,6 +16,7 @@ NPROC=${NPROC:-8}
 PYTHONPATH=$WT/src /venv/bin/python -m pytest -q -p no:cacheprovider --timeout=900 --continue-on-collection-errors -n $NPROC --junitxml=/tmp/confirm_$ID.xml test > /tmp/confirm_$ID.pytest.log 2>&1
 BASE=$(/venv/bin/python /verif/tools/compare_baseline.py /tmp/confirm_$ID.xml | grep -v "auto-8" )
 NOTPASS=$(echo "$BASE" | grep -c "NOT PASSING")
+echo "$BASE" | grep "NOT PASSING" > /tmp/confirm_$ID.notpassing
 echo "seed=$ID demo_without=$WITHOUT demo_with=$WITH compiles=$COMPILES stable_not_passing(excluding xdist artefact)=$NOTPASS"
 mkdir -p /verif/seeded/$ID
 cp $SRC/patch.diff $SRC/demo.py /verif/seeded/$ID/
